@@ -38,30 +38,6 @@ pub mod db {
 }
 
 #[cfg(kani)]
-mod smoke {
-    use crate::db::states::*;
-    use crate::primitives::{AccountInfo, U256};
-    #[kani::proof]
-    #[kani::unwind(4)]
-    fn smoke_status() {
-        let a = CacheAccount::new_loaded_not_existing();
-        assert!(!a.is_some());
-        kani::cover!(true);
-    }
-    fn fixed_random_state() -> std::hash::RandomState {
-        unsafe { core::mem::transmute::<[u64; 2], std::hash::RandomState>([0x0706050403020100, 0x0f0e0d0c0b0a0908]) }
-    }
-    #[kani::proof]
-    #[kani::unwind(6)]
-    #[kani::stub(std::hash::RandomState::new, fixed_random_state)]
-    fn smoke_map1() {
-        let k1 = U256::from_limbs([1, 0, 0, 0]);
-        let mut m: crate::primitives::HashMap<U256, U256> = Default::default();
-        let v = U256::from_limbs(kani::any());
-        m.insert(k1, v);
-        let r = m.get(&k1).copied();
-        assert!(r.is_some());
-        assert!(r.unwrap().as_limbs() == v.as_limbs());
-        kani::cover!(true);
-    }
-}
+mod common;
+#[cfg(kani)]
+mod c15;
